@@ -7,7 +7,7 @@ LARGE = ["path5", "tree5", "tern5"]
 CLAUSES = {"EXC", "end_on_non_optimal_assignment"}
 # stability 0: a message is only considered "the same as the previous one" when it is identical (the default 0.1 suppresses
 # messages that differ by less than 10%, an approximation the statement does not ask exactness for)
-PARAMS = {"damping": 0, "noise": 0, "stability": 0}
+PARAMS = {"damping": 0, "noise": 0}
 
 
 def rounds_needed(inst):
